@@ -61,12 +61,20 @@ let () =
       let cc = match connected_components_go g with
         | Done cs -> lists (List.sort compare (List.map (List.map int_of_nat) cs))
         | Panic -> "panic" | Fuel -> "fuel" in
-      List.iter (fun v ->
+      (* cv: for every v the position in cc of the list ConnectedComponent(v) returns (-1 when it
+         is not a member of cc or does not contain v) *)
+      let cc_sorted = match connected_components_go g with
+        | Done cs -> List.sort compare (List.map (List.map int_of_nat) cs) | _ -> [] in
+      let cv = String.concat "." (List.mapi (fun vi v ->
           match connected_component_go g v with
-          | Done c -> if not (List.mem (List.map int_of_nat c) cc_ref && List.mem v c) then Buffer.add_string buf "model!=ref "
-          | _ -> Buffer.add_string buf "model-panic ") vs;
+          | Done c ->
+            let c = List.map int_of_nat c in
+            if not (List.mem c cc_ref) then Buffer.add_string buf "model!=ref ";
+            let rec find k = function [] -> -1 | x :: t -> if x = c && List.mem vi c then k else find (k + 1) t in
+            string_of_int (find 0 cc_sorted)
+          | _ -> "panic") vs) in
       if cc <> lists cc_ref then Buffer.add_string buf "model!=ref ";
-      Buffer.add_string buf (Printf.sprintf "n=%d m=%d D=%s ec=%s di=%s ra=%s cc=%s" n !m dm ec di ra cc);
+      Buffer.add_string buf (Printf.sprintf "n=%d m=%d D=%s ec=%s di=%s ra=%s cc=%s cv=%s" n !m dm ec di ra cc cv);
       (* Girth: the model value goes to the strict part (only its upper-bound half is proved);
          the projected gi is the proved reference, computed at level 1 *)
       let gmodel = out (fun z -> string_of_int (int_of_z z)) (girth_go g) in
